@@ -77,8 +77,8 @@ func (g gelt) String() string {
 }
 
 type groupDomain struct {
-	m      *elemModel
-	byVar  map[string]struct {
+	m     *elemModel
+	byVar map[string]struct {
 		g    gelt
 		axis int
 	}
